@@ -3,14 +3,330 @@ import WrglModel.Spec.Graph
 import WrglModel.Lemmas.Search
 namespace Wrgl
 
+namespace C11Aux
+
+theorem get?_some {g : Graph} {id : Nat} {c : Commit} (h : g.get? id = some c) :
+    c ∈ g ∧ c.id = id := by
+  unfold Graph.get? at h
+  have h1 := List.mem_of_find?_eq_some h
+  have h2 := List.find?_some h
+  exact ⟨h1, by simpa using h2⟩
+
+theorem get?_isSome_mem {g : Graph} {id : Nat} (h : (g.get? id).isSome = true) :
+    id ∈ g.map (·.id) := by
+  cases hc : g.get? id with
+  | none => simp [hc] at h
+  | some c =>
+    obtain ⟨h1, h2⟩ := get?_some hc
+    exact List.mem_map.2 ⟨c, h1, h2⟩
+
+theorem nodup_length_le {l m : List Nat} (hn : l.Nodup) (hs : ∀ x ∈ l, x ∈ m) :
+    l.length ≤ m.length := by
+  induction l generalizing m with
+  | nil => simp
+  | cons x xs ih =>
+    have hx : x ∈ m := hs x (by simp)
+    rw [List.nodup_cons] at hn
+    have h1 := ih (m := m.erase x) hn.2 (by
+      intro y hy
+      have hne : y ≠ x := by intro e; subst e; exact hn.1 hy
+      exact (List.mem_erase_of_ne hne).2 (hs y (by simp [hy])))
+    have hl := List.length_erase_of_mem hx
+    have hp : 0 < m.length := List.length_pos_of_mem hx
+    simp only [List.length_cons]
+    omega
+
+theorem wf_nodup {g : Graph} (hwf : g.wf = true) : (g.map (·.id)).Nodup := by
+  simp [Graph.wf] at hwf
+  exact hwf.1
+
+theorem wf_parents {g : Graph} (hwf : g.wf = true) {x : Nat} {c : Commit}
+    (h : g.get? x = some c) : ∀ p ∈ c.parents, (g.get? p).isSome = true := by
+  simp [Graph.wf] at hwf
+  exact hwf.2 c (get?_some h).1
+
+theorem reach_trans {g : Graph} {a m b : Nat} (h1 : Reach g a m) (h2 : Reach g m b) :
+    Reach g a b := by
+  induction h2 with
+  | refl => exact h1
+  | step hp _ ih => exact Reach.step hp ih
+
+/-- loop invariant without the "popped is closed under parents" part -/
+structure Inv0 (g : Graph) (b : Nat) (q : Q) (popped : List Nat) : Prop where
+  items_seen : ∀ x ∈ q.items.map Prod.fst, x ∈ q.seen
+  seen_cover : ∀ x ∈ q.seen, x ∈ q.items.map Prod.fst ∨ x ∈ popped
+  popped_seen : ∀ x ∈ popped, x ∈ q.seen
+  reach : ∀ x ∈ q.seen, Reach g x b
+  nodup : (q.items.map Prod.fst ++ popped).Nodup
+  ing : ∀ x ∈ q.seen, (g.get? x).isSome = true
+  root : b ∈ q.seen
+
+structure Inv (g : Graph) (b : Nat) (q : Q) (popped : List Nat) : Prop extends Inv0 g b q popped where
+  closed : ∀ x ∈ popped, ∀ p ∈ parentsOf g x, p ∈ q.seen
+
+theorem insert_step {g : Graph} {b : Nat} {q : Q} {popped : List Nat} {p : Nat}
+    (h : Inv0 g b q popped) (hr : Reach g p b) (hg : (g.get? p).isSome = true) :
+    ∃ q', Q.insert g q p = .ok q' ∧ Inv0 g b q' popped ∧ (∀ x ∈ q.seen, x ∈ q'.seen) ∧
+      p ∈ q'.seen := by
+  unfold Q.insert
+  by_cases hs : q.hasSeen p = true
+  · simp only [hs, ↓reduceIte]
+    refine ⟨q, rfl, h, fun _ hx => hx, ?_⟩
+    simpa [Q.hasSeen] using hs
+  · simp only [hs]
+    have hps : p ∉ q.seen := by simpa [Q.hasSeen] using hs
+    cases hc : g.get? p with
+    | none => simp [hc] at hg
+    | some c =>
+      simp only [Bool.false_eq_true, ↓reduceIte]
+      refine ⟨_, rfl, ?_, ?_, ?_⟩
+      · have hperm : (List.take (Q.insertPos q.items c.time) q.items ++
+            (p, c.time) :: List.drop (Q.insertPos q.items c.time) q.items).Perm
+            ((p, c.time) :: q.items) := by
+          refine List.perm_middle.trans ?_
+          rw [List.take_append_drop]
+        have hmem : ∀ x, x ∈ (List.take (Q.insertPos q.items c.time) q.items ++
+            (p, c.time) :: List.drop (Q.insertPos q.items c.time) q.items).map Prod.fst ↔
+            x = p ∨ x ∈ q.items.map Prod.fst := by
+          intro x
+          rw [(hperm.map Prod.fst).mem_iff]
+          simp
+        constructor
+        · intro x hx
+          rcases (hmem x).1 hx with rfl | hx
+          · simp
+          · exact List.mem_cons_of_mem _ (h.items_seen x hx)
+        · intro x hx
+          rcases List.mem_cons.1 hx with rfl | hx
+          · exact Or.inl ((hmem x).2 (Or.inl rfl))
+          · rcases h.seen_cover x hx with h1 | h1
+            · exact Or.inl ((hmem x).2 (Or.inr h1))
+            · exact Or.inr h1
+        · intro x hx
+          exact List.mem_cons_of_mem _ (h.popped_seen x hx)
+        · intro x hx
+          rcases List.mem_cons.1 hx with rfl | hx
+          · exact hr
+          · exact h.reach x hx
+        · have hperm2 := (hperm.map Prod.fst).append_right popped
+          rw [hperm2.nodup_iff]
+          simp only [List.map_cons, List.cons_append, List.nodup_cons]
+          refine ⟨?_, h.nodup⟩
+          intro hx
+          rcases List.mem_append.1 hx with hx | hx
+          · exact hps (h.items_seen p hx)
+          · exact hps (h.popped_seen p hx)
+        · intro x hx
+          rcases List.mem_cons.1 hx with rfl | hx
+          · exact hg
+          · exact h.ing x hx
+        · exact List.mem_cons_of_mem _ h.root
+      · intro x hx
+        exact List.mem_cons_of_mem _ hx
+      · simp
+
+theorem insertAll_step {g : Graph} {b : Nat} {popped : List Nat} (ps : List Nat) :
+    ∀ (q : Q), Inv0 g b q popped → (∀ p ∈ ps, Reach g p b) →
+      (∀ p ∈ ps, (g.get? p).isSome = true) →
+      ∃ q', Q.insertAll g q ps = .ok q' ∧ Inv0 g b q' popped ∧ (∀ x ∈ q.seen, x ∈ q'.seen) ∧
+        ∀ p ∈ ps, p ∈ q'.seen := by
+  induction ps with
+  | nil =>
+    intro q h _ _
+    exact ⟨q, rfl, h, fun _ hx => hx, by simp⟩
+  | cons p ps ih =>
+    intro q h hr hg
+    obtain ⟨q1, e1, h1, m1, s1⟩ := insert_step h (hr p (by simp)) (hg p (by simp))
+    obtain ⟨q2, e2, h2, m2, s2⟩ := ih q1 h1 (fun x hx => hr x (by simp [hx]))
+      (fun x hx => hg x (by simp [hx]))
+    refine ⟨q2, ?_, h2, fun x hx => m2 x (m1 x hx), ?_⟩
+    · simp only [Q.insertAll, e1, e2]
+    · intro x hx
+      rcases List.mem_cons.1 hx with rfl | hx
+      · exact m2 _ s1
+      · exact s2 x hx
+
+theorem inv_bound {g : Graph} {b : Nat} {q : Q} {popped : List Nat} (_hwf : g.wf = true)
+    (h : Inv0 g b q popped) : q.items.length + popped.length ≤ g.length := by
+  have := nodup_length_le (m := g.map (·.id)) h.nodup (by
+    intro x hx
+    apply get?_isSome_mem
+    apply h.ing
+    rcases List.mem_append.1 hx with hx | hx
+    · exact h.items_seen x hx
+    · exact h.popped_seen x hx)
+  simpa using this
+
+theorem pop_step {g : Graph} {b : Nat} {q : Q} {popped : List Nat} (hwf : g.wf = true)
+    (h : Inv g b q popped) :
+    (q.items = [] ∧ Q.popInsertParents g q = .ok (none, q)) ∨
+    (∃ id q', Q.popInsertParents g q = .ok (some id, q') ∧ Inv g b q' (id :: popped) ∧
+      popped.length < g.length) := by
+  obtain ⟨items, seen⟩ := q
+  cases items with
+  | nil => left; exact ⟨rfl, rfl⟩
+  | cons hd rest =>
+    right
+    obtain ⟨id, t⟩ := hd
+    have hb := inv_bound hwf h.toInv0
+    have hid : id ∈ seen := h.items_seen id (by simp)
+    have hg := h.ing id hid
+    cases hc : g.get? id with
+    | none => simp [hc] at hg
+    | some c =>
+      have hnd : (rest.map Prod.fst ++ id :: popped).Nodup := by
+        have hp : (rest.map Prod.fst ++ id :: popped).Perm (id :: (rest.map Prod.fst ++ popped)) :=
+          List.perm_middle
+        rw [hp.nodup_iff]
+        simpa using h.nodup
+      have h0 : Inv0 g b { items := rest, seen := seen } (id :: popped) := by
+        constructor
+        · intro x hx
+          exact h.items_seen x (by simp at hx ⊢; exact Or.inr hx)
+        · intro x hx
+          rcases h.seen_cover x hx with h1 | h1
+          · simp only [List.map_cons, List.mem_cons] at h1
+            rcases h1 with rfl | h1
+            · exact Or.inr (by simp)
+            · exact Or.inl h1
+          · exact Or.inr (List.mem_cons_of_mem _ h1)
+        · intro x hx
+          rcases List.mem_cons.1 hx with rfl | hx
+          · exact hid
+          · exact h.popped_seen x hx
+        · exact h.reach
+        · exact hnd
+        · exact h.ing
+        · exact h.root
+      have hpar : parentsOf g id = c.parents := by simp [parentsOf, hc]
+      obtain ⟨q', e, h', m, s⟩ := insertAll_step c.parents _ h0
+        (fun p hp => reach_trans (Reach.step (by rw [hpar]; exact hp) (Reach.refl p))
+          (h.reach id hid))
+        (wf_parents hwf hc)
+      refine ⟨id, q', ?_, ⟨h', ?_⟩, ?_⟩
+      · simp only [Q.popInsertParents, hc, e]
+      · intro x hx p hp
+        rcases List.mem_cons.1 hx with rfl | hx
+        · rw [hpar] at hp; exact s p hp
+        · exact m p (h.closed x hx p hp)
+      · simp at hb; omega
+
+theorem inv_eof {g : Graph} {b : Nat} {q : Q} {popped : List Nat}
+    (h : Inv g b q popped) (he : q.items = []) : ∀ x, x ∈ popped ↔ Reach g x b := by
+  have hsp : ∀ x, x ∈ q.seen → x ∈ popped := by
+    intro x hx
+    rcases h.seen_cover x hx with h1 | h1
+    · simp [he] at h1
+    · exact h1
+  intro x
+  constructor
+  · intro hx; exact h.reach x (h.popped_seen x hx)
+  · intro hx
+    exact Reach.closed g (fun y => y ∈ popped) b (hsp b h.root)
+      (fun y hy p hp => hsp p (h.closed y hy p hp)) x hx
+
+theorem inv_popped_nodup {g : Graph} {b : Nat} {q : Q} {popped : List Nat}
+    (h : Inv g b q popped) : popped.Nodup :=
+  (List.nodup_append.1 h.nodup).2.1
+
+theorem single_inv {g : Graph} {b : Nat} (hb : (g.get? b).isSome = true) :
+    ∃ q, Q.single g b = .ok q ∧ Inv g b q [] := by
+  unfold Q.single
+  cases hc : g.get? b with
+  | none => simp [hc] at hb
+  | some c =>
+    refine ⟨_, rfl, ⟨?_, ?_⟩⟩
+    · constructor
+      · intro x hx; simpa using hx
+      · intro x hx; left; simpa using hx
+      · intro x hx; simp at hx
+      · intro x hx
+        have : x = b := by simpa using hx
+        subst this; exact Reach.refl _
+      · simp
+      · intro x hx
+        have : x = b := by simpa using hx
+        subst this; exact hb
+      · simp
+    · intro x hx; simp at hx
+
+theorem isAncestorLoop_correct {g : Graph} (hwf : g.wf = true) (a b : Nat) :
+    ∀ (fuel : Nat) (q : Q) (popped : List Nat), Inv g b q popped → a ∉ popped →
+      g.length + 1 ≤ fuel + popped.length →
+      (∃ r, isAncestorLoop g a fuel q = .ok r) ∧
+        (isAncestorLoop g a fuel q = .ok true ↔ Reach g a b) := by
+  intro fuel
+  induction fuel with
+  | zero =>
+    intro q popped h _ hf
+    have := inv_bound hwf h.toInv0
+    omega
+  | succ fuel ih =>
+    intro q popped h ha hf
+    rcases pop_step hwf h with ⟨he, e⟩ | ⟨id, q', e, h', hlt⟩
+    · simp only [isAncestorLoop, e]
+      refine ⟨⟨false, rfl⟩, ?_⟩
+      constructor
+      · intro h1; cases h1
+      · intro hr
+        exact absurd ((inv_eof h he a).2 hr) ha
+    · simp only [isAncestorLoop, e]
+      by_cases hia : id = a
+      · subst hia
+        simp only [beq_self_eq_true, ↓reduceIte]
+        refine ⟨⟨true, rfl⟩, ?_⟩
+        constructor
+        · intro _
+          exact h'.reach id (h'.popped_seen id (by simp))
+        · intro _; trivial
+      · have : (id == a) = false := by simpa using hia
+        simp only [this, Bool.false_eq_true, ↓reduceIte]
+        apply ih q' (id :: popped) h'
+        · intro hx
+          rcases List.mem_cons.1 hx with rfl | hx
+          · exact hia rfl
+          · exact ha hx
+        · simp only [List.length_cons]; omega
+
+theorem walkLoop_correct {g : Graph} (hwf : g.wf = true) (b : Nat) :
+    ∀ (fuel : Nat) (q : Q) (acc : List Nat), Inv g b q acc →
+      g.length + 1 ≤ fuel + acc.length →
+      ∃ l, walkLoop g fuel q acc = .ok l ∧ l.Nodup ∧ ∀ x, x ∈ l ↔ Reach g x b := by
+  intro fuel
+  induction fuel with
+  | zero =>
+    intro q acc h hf
+    have := inv_bound hwf h.toInv0
+    omega
+  | succ fuel ih =>
+    intro q acc h hf
+    rcases pop_step hwf h with ⟨he, e⟩ | ⟨id, q', e, h', hlt⟩
+    · simp only [walkLoop, e]
+      refine ⟨_, rfl, ?_, ?_⟩
+      · exact (List.reverse_perm acc).nodup_iff.2 (inv_popped_nodup h)
+      · intro x
+        rw [List.mem_reverse]
+        exact inv_eof h he x
+    · simp only [walkLoop, e]
+      apply ih q' (id :: acc) h'
+      simp only [List.length_cons]; omega
+
+end C11Aux
+
+open C11Aux in
 theorem isAncestor_correct (g : Graph) (hwf : g.wf = true) (a b : Nat)
     (hb : (g.get? b).isSome = true) :
     (∃ r, isAncestorOf g a b = .ok r) ∧ (isAncestorOf g a b = .ok true ↔ Reach g a b) := by
-  sorry
+  obtain ⟨q, e, h⟩ := single_inv hb
+  simp only [isAncestorOf, e]
+  exact isAncestorLoop_correct hwf a b _ q [] h (by simp) (by simp)
 
+open C11Aux in
 theorem walk_correct (g : Graph) (hwf : g.wf = true) (b : Nat)
     (hb : (g.get? b).isSome = true) :
     ∃ l, walk g b = .ok l ∧ l.Nodup ∧ ∀ x, x ∈ l ↔ Reach g x b := by
-  sorry
+  obtain ⟨q, e, h⟩ := single_inv hb
+  simp only [walk, e]
+  exact walkLoop_correct hwf b _ q [] h (by simp)
 
 end Wrgl
